@@ -54,29 +54,44 @@ where
     T: AsRef<str>,
 {
     fn decode(&self) -> Result<Vec<u8>, ()> {
-        let input = self.as_ref();
-        let mut result: Vec<u8> = Vec::with_capacity(input.len() * 3 / 4);
+        let input = self.as_ref().as_bytes();
 
-        for group in input.as_bytes().chunks(4) {
+        // Base64 input always consists of complete, padded groups of four symbols
+        if input.len() % 4 != 0 {
+            return Err(());
+        }
+
+        let group_count = input.len() / 4;
+        let mut result: Vec<u8> = Vec::with_capacity(group_count * 3);
+
+        for (group_index, group) in input.chunks(4).enumerate() {
             let mut decoded: u32 = 0;
-            let mut broken: usize = 4;
+            let mut padding: usize = 0;
 
             for (i, tem) in group.iter().enumerate() {
-                match tem {
-                    b'A'..=b'Z' => decoded |= ((tem - b'A') as u32) << (6 * (3 - i)),
-                    b'a'..=b'z' => decoded |= ((tem - b'a' + 26) as u32) << (6 * (3 - i)),
-                    b'0'..=b'9' => decoded |= ((tem - b'0' + 52) as u32) << (6 * (3 - i)),
-                    b'+' => decoded |= 62_u32 << (6 * i),
-                    b'/' => decoded |= 63_u32 << (6 * i),
-                    b'=' => {
-                        broken = i;
-                        break;
+                let value = match tem {
+                    b'A'..=b'Z' => tem - b'A',
+                    b'a'..=b'z' => tem - b'a' + 26,
+                    b'0'..=b'9' => tem - b'0' + 52,
+                    b'+' => 62,
+                    b'/' => 63,
+                    // Padding is only valid in the last two positions of the final group
+                    b'=' if group_index == group_count - 1 && i >= 2 => {
+                        padding += 1;
+                        0
                     }
                     _ => return Err(()),
+                };
+
+                // Once padding has started, nothing but padding may follow
+                if padding > 0 && *tem != b'=' {
+                    return Err(());
                 }
+
+                decoded |= (value as u32) << (6 * (3 - i));
             }
 
-            result.extend_from_slice(&decoded.to_be_bytes()[1..broken]);
+            result.extend_from_slice(&decoded.to_be_bytes()[1..4 - padding]);
         }
 
         Ok(result)
